@@ -31,7 +31,8 @@
 (***************************************************************************)
 EXTENDS Integers, Sequences, FiniteSets, TLC
 
-CONSTANTS MaxEntry, BufSize, DepthLimit
+CONSTANTS MaxEntry, BufSize, DepthLimit,
+          EmptyFileSeek     \* replies of seekTS on a file of 0 bytes, see Probe
 
 VARIABLES
     ends, tss,                          \* the file (never changes after Open)
@@ -115,6 +116,9 @@ Reply(op, arg, res, line) == [op |-> op, arg |-> arg, res |-> res, line |-> line
 NoReply == Reply("none", 0, "ok", 0)
 
 \* ------------------------------------------------------------------ actions
+\* The file (ends, tss) is a parameter of a behaviour: no action mentions
+\* ends' or tss'; the enclosing module (QLogFileAlgMC, TraceQLogFileAlg) says
+\* how it is chosen and keeps it fixed.
 \* SeekStart:210-230
 SeekStart ==
     /\ pc = "idle"
@@ -122,7 +126,7 @@ SeekStart ==
     /\ position' = IF Size - 1 < 0 THEN 0 ELSE Size - 1                         \* :224-227
     /\ seeked' = TRUE
     /\ out' = Reply("start", 0, "ok", 0)
-    /\ UNCHANGED <<fileVars, bufferStart, pc, searchVars>>
+    /\ UNCHANGED <<bufferStart, pc, searchVars>>
 
 \* ReadNext:236-258
 ReadNext ==
@@ -136,7 +140,7 @@ ReadNext ==
               /\ position' = IF r.lineIdx = 0 THEN 0 ELSE r.lineIdx - 1         \* :250-256
               /\ out' = IF r.line = 0 THEN Reply("read", 0, "fragment", 0)
                         ELSE Reply("read", 0, "ok", r.line)
-    /\ UNCHANGED <<fileVars, pc, searchVars, seeked>>
+    /\ UNCHANGED <<pc, searchVars, seeked>>
 
 \* seekTS:106-140, up to the first iteration of the loop.
 SeekTSBegin(t) ==
@@ -146,7 +150,7 @@ SeekTSBegin(t) ==
     /\ sStart' = 0 /\ sEnd' = Size /\ sProbe' = Size \div 2                     \* :126-130
     /\ sLast' = -1 /\ sDepth' = 0                                               \* :138
     /\ pc' = "probe"
-    /\ UNCHANGED <<fileVars, position, bufferStart, seeked, out>>
+    /\ UNCHANGED <<position, bufferStart, seeked, out>>
 
 \* How a seek returns: with an error (position untouched) ...
 SeekFails(e) ==
@@ -165,11 +169,18 @@ SeekLands(p) ==
 \* One iteration of the loop seekTS:142-198.
 Probe ==
     /\ pc = "probe"
-    /\ UNCHANGED <<fileVars, bufferStart, bufNil>>
+    /\ UNCHANGED <<bufferStart, bufNil>>
     /\ LET r  == ReadProbeLine(sProbe)                                          \* :144
            ts == TimestampOf(r.lineIdx, r.lineEnd)                              \* :159
        IN
-       IF r.ioerr THEN SeekFails("ioerr")                                       \* :145-147
+       \* :145-147.  Only a file of 0 bytes gets here: readProbeLine's Read
+       \* returns io.EOF and seekTS passes it on -- an error that is none of
+       \* the three classes (known finding C20:empty-file-seek-eof; the
+       \* configuration QLogFileAlgMC.empty.cfg shows the refinement
+       \* violation).  The repair proposed for it answers tooEarly before the
+       \* loop.  EmptyFileSeek lists which of the two this spec admits, so that
+       \* direction B accepts the code before and after the repair.
+       IF r.ioerr THEN \E e \in EmptyFileSeek : SeekFails(e)
        \* validateQLogLineIdx:72-88
        ELSE IF r.lineIdx = sLast /\ r.lineIdx = 0 THEN SeekFails("tooEarly")
        ELSE IF r.lineIdx = sLast THEN SeekFails("notFound")
@@ -179,7 +190,10 @@ Probe ==
        ELSE LET start2 == IF ts > sTarget THEN sStart ELSE r.lineEndIdx         \* :175-185
                 end2   == IF ts > sTarget THEN r.lineIdx ELSE sEnd
             IN IF sDepth + 1 >= DepthLimit                                      \* :188-197
-               THEN SeekFails("notFound")
+               THEN /\ pc' = "idle" /\ seeked' = TRUE                          \* returns the
+                    /\ out' = Reply("seek", sTarget, "notFound", 0)            \* incremented depth
+                    /\ sDepth' = sDepth + 1
+                    /\ UNCHANGED <<position, sTarget, sStart, sEnd, sProbe, sLast>>
                ELSE /\ sStart' = start2 /\ sEnd' = end2
                     /\ sProbe' = start2 + (end2 - start2) \div 2                \* :186
                     /\ sLast' = r.lineIdx                                       \* :156
